@@ -63,6 +63,7 @@ type runner struct {
 	constructD int
 	constructP int
 	keepRec    bool
+	young      bool // scenario: fresh decoder, no newestShardId preset, ids far from 0
 	inject     bool // mismatchCase: feed one stray packet with a contradicting type before the run
 	alternate  bool // mismatchCase: deterministic pre-history (every second packet lost)
 	retuned    bool
@@ -352,6 +353,12 @@ func (x *runner) feed(pkt []byte, s *sent) kcp.VerifFECDecoderState {
 	if post.ShouldTune {
 		x.o.Count("d:tuning")
 	}
+	// the decoder keeps the newest group and at most maxShardSets groups behind it (plus, transiently,
+	// one that is about to be discarded): anything more means shard sets are no longer collected
+	if len(post.Sets) > 8 {
+		x.viol("fec-horizon-unbounded", fmt.Sprintf("decoder %d/%d holds %d shard sets after seq %d (newestShardId %d)",
+			post.DataShards, post.ParityShards, len(post.Sets), binary.LittleEndian.Uint32(pkt), post.NewestShardID))
+	}
 	if post.DataShards != pre.DataShards || post.ParityShards != pre.ParityShards {
 		x.retuned = true
 		x.o.Count("d:ratio-changed")
@@ -446,7 +453,9 @@ func (x *runner) feed(pkt []byte, s *sent) kcp.VerifFECDecoderState {
 			}
 			if !found {
 				kind := "fec-horizon"
-				if x.retuned {
+				if x.young {
+					kind = "fec-newest-init" // fresh decoder (newestShardId = 0) whose first ids are >= 2^31
+				} else if x.retuned {
 					kind = "fec-horizon-after-tune" // C16: the decoder changed its ratio earlier in this history
 				}
 				x.viol(kind, fmt.Sprintf("decoder %d/%d: shard set of group %d (seq %d) is gone although the newest group fed is only %d ahead",
@@ -820,6 +829,47 @@ func convBucket(c int) int {
 	return 99999
 }
 
+// youngDecoder: a FRESH decoder (newestShardId = 0, no preset) whose first packets have ids at pos;
+// every group loses its first data packet and must recover it.  For pos >= 2^31 the real decoder
+// never advances newestShardId (the signed comparison with 0 is negative) and discards every shard
+// set at once (finding D13, kind fec-newest-init).
+func (x *runner) youngDecoder(d, p int, pos uint32, groups int) {
+	x.key.Reset()
+	x.o.Case("")
+	x.o.Count("scenario:young-decoder")
+	x.kcpMode = false
+	x.newEnc(d, p, 0, pos)
+	x.newDec(d, p)
+	x.young = true
+	defer func() { x.young = false }()
+	lens := []int{20, 33, 7}
+	for k := 0; k < groups; k++ {
+		grp := x.emitGroup(lens, true)
+		var got [][]byte
+		for i, s := range grp {
+			if i == 0 {
+				continue
+			}
+			got = append(got, x.feedRec(s)...)
+		}
+		ok := false
+		for _, r := range got {
+			if tr, tok := trim(r); tok && bytes.Equal(tr, grp[0].payload) {
+				ok = true
+			}
+		}
+		if !ok {
+			x.viol("fec-newest-init", fmt.Sprintf(
+				"fresh %d/%d decoder (newestShardId 0) whose first packets have ids from %d: group %d lost its first data packet (seq %d), the other %d packets arrived in order, nothing was recovered (%d shards returned)",
+				d, p, pos, k, grp[0].seq, len(grp)-1, len(got)))
+			break
+		}
+		x.o.Count("young:recovery-works")
+	}
+	x.o.Case(hx.HashKey(x.key.String()))
+	x.o.Res.Cases--
+}
+
 // d10Witness replays the D10 history on the real encoder, decoder and two real KCP cores:
 // sender 3/1, receiver 2/2, three full-size segments sn 0,1,2 (ids 0,1,2) and parity id 3;
 // the receiver gets id 0 and id 3, ids 1 and 2 are lost and retransmitted later.
@@ -1042,6 +1092,13 @@ func Run(o *hx.Out, g *hx.Rng, tier string) {
 				st = (pr - 2000) / uint32(n) * uint32(n)
 			}
 			x.mismatchCase(m.sd, m.sp, m.rd, m.rp, st, g.Intn(80), true)
+		}
+	}
+	// --- C07: fresh decoders joining a stream anywhere in the id space (no newestShardId preset)
+	for _, dp := range [][2]int{{2, 1}, {10, 3}, {1, 1}} {
+		n := uint32(dp[0] + dp[1])
+		for _, pos := range []uint32{0, 3 * n, 1 << 20 / n * n, (1<<31 - 1000) / n * n, (1<<31 + 1<<20) / n * n, 3 << 30 / n * n, pawsOf(int(n)) - 2*n} {
+			x.youngDecoder(dp[0], dp[1], pos, 8)
 		}
 	}
 	// --- a sender with d+p = 256 (the largest the encoder accepts): never adopted
